@@ -52,9 +52,16 @@ def cache_load(url, replace_file=False):
 
         # Keep the bytes as they are: the XML declaration of the resource
         # names its encoding, which need not be UTF-8.
-        file_obj = open(cache_file, "wb")
-        file_obj.write(data)
-        file_obj.close()
+        # Loaders of other handlers share the cache file and may read it at any
+        # time: never show them a file that is only partly written.
+        part_file = "%s.part%s" % (cache_file, threading.current_thread().ident)
+        try:
+            with open(part_file, "wb") as file_obj:
+                file_obj.write(data)
+            os.replace(part_file, cache_file)
+        finally:
+            if os.path.exists(part_file):
+                os.remove(part_file)
 
     return open(cache_file, "rb")
 
